@@ -97,6 +97,19 @@ CORPUS = [
     {"per": [4, 2], "pixels": [[i, j, [0.375, 1.0, 2.625, 0.0625, 3.0][(i + 2 * j) % 5]] for i in range(6) for j in range(i, 6)],
      "o": mk(diags=1, nnz=2, count=1.25, mad=1, tol=1e-6)},
     {"per": [5], "pixels": full_upper(5, lambda i, j: 1 + (i + j) % 4), "o": mk(diags=1, nnz=2, count=0.5, tol=1e-6)},
+    # input shapes: empty cooler (nnz = 0), single-bin chromosomes, one chromosome in cis mode, a chromosome without any pixel
+    {"per": [2, 2], "pixels": [], "o": mk(diags=1, mad=2, nnz=1, tol=1e-5), "chunk": None},
+    {"per": [2, 2], "pixels": [], "o": mk(diags=0, tol=1e-5), "chunk": 3},
+    {"per": [2, 2], "pixels": [], "o": mk(cis=True, diags=1, tol=1e-5), "chunk": 3},
+    {"per": [2, 2], "pixels": [], "o": mk(trans=True, diags=0, mad=1, tol=1e-5), "chunk": None},
+    {"per": [1, 3], "pixels": [[0, 0, 5], [0, 1, 2], [0, 3, 4], [1, 2, 3], [1, 3, 1], [2, 3, 6], [2, 2, 2]], "o": mk(cis=True, diags=0, tol=1e-6)},
+    {"per": [1, 3], "pixels": [[0, 0, 5], [0, 1, 2], [0, 3, 4], [1, 2, 3], [1, 3, 1], [2, 3, 6], [2, 2, 2]], "o": mk(cis=True, diags=1, nnz=1, tol=1e-6)},
+    {"per": [1, 1, 2], "pixels": [[0, 1, 3], [0, 2, 2], [0, 3, 5], [1, 2, 4], [1, 3, 1], [2, 3, 7]], "o": mk(trans=True, diags=0, tol=1e-4)},
+    {"per": [1, 1, 2], "pixels": [[0, 1, 3], [0, 2, 2], [0, 3, 5], [1, 2, 4], [1, 3, 1], [2, 3, 7]], "o": mk(diags=1, mad=1, tol=1e-6)},
+    {"per": [4], "pixels": full_upper(4, lambda i, j: 1 + (i + 2 * j) % 5), "o": mk(cis=True, diags=1, tol=1e-6)},
+    {"per": [2, 2, 2], "pixels": [[0, 1, 4], [0, 4, 2], [0, 5, 3], [1, 4, 5], [1, 5, 1], [4, 5, 6], [0, 0, 2]], "o": mk(diags=1, mad=2, tol=1e-6)},
+    {"per": [2, 2, 2], "pixels": [[0, 1, 4], [0, 4, 2], [0, 5, 3], [1, 4, 5], [1, 5, 1], [4, 5, 6], [0, 0, 2]], "o": mk(trans=True, diags=0, mad=1, nnz=1, tol=1e-4)},
+    {"per": [2, 2, 2], "pixels": [[0, 1, 4], [0, 4, 2], [0, 5, 3], [1, 4, 5], [1, 5, 1], [4, 5, 6], [0, 0, 2]], "o": mk(cis=True, diags=0, mad=1, tol=1e-6)},
     # empty chromosome (all NaN there in cis mode), isolated bin
     {"per": [3, 2], "pixels": [[0, 1, 4], [0, 2, 2], [1, 2, 5], [3, 3, 6]], "o": mk(cis=True, diags=1, tol=1e-6)},
     {"per": [3, 2], "pixels": [[0, 1, 4], [0, 2, 2], [1, 2, 5], [0, 3, 6]], "o": mk(cis=True, diags=0, tol=1e-6, x0=[1.0, None, 2.0, 0.5, 0.0])},
@@ -221,6 +234,176 @@ def trans_cw_flatness(o, per, F, r):
     st, _ = flatness(o2, per, F, r2, [list(range(len(F)))])
     return not st.startswith("FAIL")
 
+# ---------------------------------------------------------------------------------------------------------
+# parameter audit: every public parameter / CLI option that the generator above does not vary, one cheap case
+# each, expected values from the dense reference and the documented option semantics
+AUD_PER = [3, 2]
+AUD_PX = [[0, 0, 3], [0, 1, 4], [0, 2, 2], [0, 3, 5], [0, 4, 1], [1, 2, 6], [1, 3, 2], [1, 4, 3], [2, 3, 4], [2, 4, 2], [3, 4, 7], [4, 4, 1]]
+
+
+def _ref(per, pixels, o):
+    n = sum(per)
+    F = G.dense_int(n, pixels)
+    b0, ties = G.ref_masks(o, per, F)
+    groups = G.ref_loop_float(o, per, F, b0)
+    assert not ties and not G.near_tol(groups, o["tol"])
+    return G.assemble(n, groups, o["rescale"]), groups
+
+
+def audit(ctx, tmp, counters):
+    import cooler
+    import h5py
+    import pandas as pd
+    from click.testing import CliRunner
+    from cooler.cli import cli
+    per, pixels = AUD_PER, AUD_PX
+    n = sum(per)
+
+    def fail(case, what, got, exp=None):
+        ctx.fail(case, {"what": what, "got": got, "expected": exp}, None)
+
+    def lst(w):
+        return w if isinstance(w, str) else [None if x != x else float(x) for x in w]
+
+    # ---- API variants
+    clr = G.build_cooler(tmp / "aud.cool", per, pixels)
+    variants = [
+        ("ignore_diags=False", mk(diags=0, nnz=1, tol=1e-6), {"ignore_diags": False}),
+        ("blacklist as list", mk(diags=1, black=[1, 3], tol=1e-6), {"blacklist": [1, 3]}),
+        ("blacklist empty list", mk(diags=1, black=None, tol=1e-6), {"blacklist": []}),
+        ("blacklist empty array", mk(diags=1, black=None, tol=1e-6), {"blacklist": np.array([], dtype=int)}),
+        ("use_lock=True", mk(diags=1, nnz=1, tol=1e-6), {"use_lock": True}),
+        ("use_lock=True cis", mk(cis=True, diags=0, tol=1e-6), {"use_lock": True}),
+        ("max_iters reached (no convergence)", mk(diags=1, tol=1e-12, iters=2), {}),
+        ("max_iters reached cis", mk(cis=True, diags=0, tol=1e-12, iters=3, rescale=False), {}),
+    ]
+    for name, o, over in variants:
+        case = {"audit": name, "per": per, "pixels": pixels, "o": o, "chunk": 4}
+        ctx.case(case, nontrivial=True, kind="audit:api")
+        wref, groups = _ref(per, pixels, o)
+        r = G.call_balance(clr, o, 4, map, **over)
+        counters["audit"] += 1
+        if isinstance(r, str) or not G.vec_close(r["w"], wref, 1e-8) or \
+                r["converged"] != [bool(g["var"] < o["tol"]) for g in groups]:
+            fail(case, "balance_cooler(" + name + ") differs from the dense reference",
+                 r if isinstance(r, str) else {"w": lst(r["w"]), "converged": r["converged"]}, lst(wref))
+
+    # ---- store twice under the same name: the second result replaces the first
+    o1, o2 = mk(diags=1, tol=1e-6), mk(diags=0, nnz=2, tol=1e-6)
+    case = {"audit": "store overwrite", "per": per, "pixels": pixels, "o": o2, "chunk": None}
+    ctx.case(case, nontrivial=True, kind="audit:api")
+    r1 = G.call_balance(clr, o1, None, map, store=True, store_name="w_aud")
+    r2 = G.call_balance(clr, o2, None, map, store=True, store_name="w_aud")
+    counters["audit"] += 1
+    col = cooler.Cooler(str(tmp / "aud.cool")).bins()["w_aud"][:].values
+    wref2, _ = _ref(per, pixels, o2)
+    if isinstance(r2, str) or not G.vec_close(col, wref2, 1e-8):
+        fail(case, "stored column after a second store=True run", lst(col), lst(wref2))
+
+    # ---- a cooler with an extra value column: balancing uses 'count' only
+    bins = cooler.binnify(pd.Series({f"c{k}": p * 10 for k, p in enumerate(per)}), 10)
+    px = sorted(map(tuple, pixels))
+    df = pd.DataFrame({"bin1_id": [p[0] for p in px], "bin2_id": [p[1] for p in px], "count": [p[2] for p in px],
+                       "extra": [float(100 - 7 * k) for k in range(len(px))]})
+    cooler.create_cooler(str(tmp / "aud_x.cool"), bins, df, columns=["count", "extra"], dtypes={"extra": np.float64})
+    o = mk(diags=1, nnz=1, tol=1e-6)
+    case = {"audit": "extra value column", "per": per, "pixels": pixels, "o": o, "chunk": None}
+    ctx.case(case, nontrivial=True, kind="audit:api")
+    r = G.call_balance(cooler.Cooler(str(tmp / "aud_x.cool")), o, None, map)
+    counters["audit"] += 1
+    wref, _ = _ref(per, pixels, o)
+    if isinstance(r, str) or not G.vec_close(r["w"], wref, 1e-8):
+        fail(case, "balance of a cooler with an extra value column", r if isinstance(r, str) else lst(r["w"]), lst(wref))
+
+    # ---- CLI options
+    runner = CliRunner()
+    path = tmp / "aud_cli.cool"
+    G.build_cooler(path, per, pixels)
+    base = ["--ignore-diags", "1", "--min-nnz", "1", "--mad-max", "0", "--tol", "1e-06", "--max-iters", "200"]
+    oc = mk(diags=1, nnz=1, tol=1e-6)
+    wconv, _ = _ref(per, pixels, oc)
+    onc = mk(diags=1, nnz=1, tol=1e-12, iters=2)
+    wnc, gnc = _ref(per, pixels, onc)
+    assert not any(g["var"] < onc["tol"] for g in gnc)
+
+    def cli_run(args):
+        res = runner.invoke(cli, ["balance"] + args + [str(path)])
+        return res.exit_code, res.output
+
+    def column(name):
+        with h5py.File(path, "r") as h5:
+            if name not in h5["bins"]:
+                return None
+            return np.array(h5["bins"][name][:], dtype=float), dict(h5["bins"][name].attrs)
+
+    def cli_case(label, args, check):
+        case = {"audit": "cli " + label, "per": per, "pixels": pixels, "cli": args}
+        ctx.case(case, nontrivial=True, kind="audit:cli")
+        counters["audit"] += 1
+
+        def go():
+            code, out = cli_run(args)
+            return check(code, out)
+        res = G.with_limit(60.0, go)
+        if res is not True:
+            fail(case, "cooler balance " + label, res if isinstance(res, str) else str(res))
+
+    def stored(name, wexp, conv):
+        c = column(name)
+        if c is None:
+            return "no column " + name
+        if not G.vec_close(c[0], wexp, 1e-8):
+            return {"stored": lst(c[0]), "expected": lst(wexp)}
+        if bool(np.all(c[1]["converged"])) != conv:
+            return "converged attr"
+        return True
+
+    cli_case("--check before balancing", ["--check"], lambda code, out: True if code == 1 and column("weight") is None else (code, out[:80]))
+    cli_case("default name", base, lambda code, out: stored("weight", wconv, True) if code == 0 else ("exit", code))
+    cli_case("--check after balancing", ["--check"], lambda code, out: True if code == 0 and "is balanced" in out else (code, out[:80]))
+    cli_case("--check --name absent", ["--check", "--name", "other"], lambda code, out: True if code == 1 else (code, out[:80]))
+    # without --force an existing column is kept and the command fails
+    odiff = mk(diags=0, nnz=1, tol=1e-6)
+    wdiff, _ = _ref(per, pixels, odiff)
+    diffargs = ["--ignore-diags", "0", "--min-nnz", "1", "--mad-max", "0", "--tol", "1e-06", "--max-iters", "200"]
+    cli_case("existing column without --force", diffargs,
+             lambda code, out: (stored("weight", wconv, True) if code == 1 else ("exit", code)))
+    cli_case("--force", diffargs + ["--force"], lambda code, out: stored("weight", wdiff, True) if code == 0 else ("exit", code))
+    cli_case("--name", base + ["--name", "other"],
+             lambda code, out: (stored("other", wconv, True) is True and stored("weight", wdiff, True) is True) or "name/weight columns")
+    # --stdout prints the weights and stores nothing
+    def chk_stdout(code, out):
+        if code != 0 or column("w_out") is not None:
+            return ("exit/col", code)
+        vals = [float("nan") if t.strip() == "" else float(t) for t in out.splitlines()[-n:]]
+        return True if G.vec_close(np.array(vals), wconv, 1e-4) else {"printed": vals}
+    cli_case("--stdout", base + ["--stdout", "--name", "w_out"], chk_stdout)
+    # --ignore-dist: ignore_diags = max(ignore_diags, ceil(dist / binsize)), bin size 10
+    for dist, d in ((15, 2), (20, 2), (21, 3), (5, 1)):
+        od = mk(diags=d, nnz=1, tol=1e-6)
+        wd, gd = _ref(per, pixels, od)
+        nm = f"w_dist{dist}"
+        cli_case(f"--ignore-dist {dist}", base + ["--ignore-dist", str(dist), "--name", nm],
+                 lambda code, out, nm=nm, wd=wd, gd=gd: stored(nm, wd, all(g["var"] < 1e-6 for g in gd)) if code == 0 else ("exit", code))
+    # convergence policies on a run that does not converge (2 sweeps, tol 1e-12) ...
+    ncargs = ["--ignore-diags", "1", "--min-nnz", "1", "--mad-max", "0", "--tol", "1e-12", "--max-iters", "2"]
+    cli_case("policy store_final (not converged)", ncargs + ["--name", "p_final", "--convergence-policy", "store_final"],
+             lambda code, out: stored("p_final", wnc, False) if code == 0 else ("exit", code))
+    cli_case("policy store_nan (not converged)", ncargs + ["--name", "p_nan", "--convergence-policy", "store_nan"],
+             lambda code, out: stored("p_nan", np.full(n, np.nan), False) if code == 0 else ("exit", code))
+    cli_case("policy discard (not converged)", ncargs + ["--name", "p_disc", "--convergence-policy", "discard"],
+             lambda code, out: True if code == 0 and column("p_disc") is None else ("exit/col", code))
+    cli_case("policy error (not converged)", ncargs + ["--name", "p_err", "--convergence-policy", "error"],
+             lambda code, out: True if code == 1 and column("p_err") is None else ("exit/col", code))
+    # ... and on a run that converges every policy stores the result
+    for pol in ("store_nan", "discard", "error"):
+        nm = "c_" + pol
+        cli_case(f"policy {pol} (converged)", base + ["--name", nm, "--convergence-policy", pol],
+                 lambda code, out, nm=nm: stored(nm, wconv, True) if code == 0 else ("exit", code))
+    # both mode flags at once are refused
+    cli_case("--cis-only --trans-only", base + ["--cis-only", "--trans-only", "--name", "both"],
+             lambda code, out: True if code != 0 and column("both") is None else ("exit/col", code))
+
 
 def run(ctx):
     import cooler
@@ -247,7 +430,7 @@ def run(ctx):
     exprs = []        # Gallina expressions
     pend = []         # (kind, case, payload) aligned with exprs
     counters = {"near_tol": 0, "mad_tie": 0, "vacuous_bound": 0, "flat_checked": 0, "sweeps_tied": 0, "short_exact": 0,
-                "one_sweep": 0, "store": 0, "cli": 0, "mad_tie_model_skipped": 0}
+                "one_sweep": 0, "store": 0, "cli": 0, "mad_tie_model_skipped": 0, "audit": 0}
 
     for ci, cs in enumerate(cases):
         per, pixels, o, chunk = cs["per"], cs["pixels"], cs["o"], cs["chunk"]
@@ -276,6 +459,15 @@ def run(ctx):
                 same = np.array_equal(np.isnan(col), np.isnan(w)) and np.array_equal(col[~np.isnan(col)], w[~np.isnan(w)])
                 if not same or bool(np.all(att["converged"])) != bool(np.all(st["converged"])):
                     return "error:StoredColumnDiffers"
+                # the stats attributes of the stored column: the options echoed and the run statistics
+                echo = (float(att["tol"]) == o["tol"] and int(att["min_nnz"]) == o["nnz"] and float(att["min_count"]) == o["count"]
+                        and int(att["mad_max"]) == o["mad"] and bool(att["cis_only"]) == o["cis"] and int(att["ignore_diags"]) == o["diags"]
+                        and not bool(att["divisive_weights"])
+                        and np.array_equal(np.atleast_1d(att["scale"]), np.atleast_1d(st["scale"]), equal_nan=True)
+                        and np.array_equal(np.atleast_1d(att["var"]), np.atleast_1d(st["var"]), equal_nan=True)
+                        and np.array_equal(np.atleast_1d(att["converged"]), np.atleast_1d(st["converged"])))
+                if not echo:
+                    return "error:StoredAttrsDiffer"
                 return {"w": np.array(col, dtype=float), "scale": np.atleast_1d(np.array(st["scale"], dtype=float)),
                         "var": np.atleast_1d(np.array(st["var"], dtype=float)),
                         "converged": [bool(x) for x in np.atleast_1d(st["converged"])]}
@@ -442,6 +634,8 @@ def run(ctx):
             ctx.fail(case, {"what": "weight column stored by `cooler balance`", "got": w if isinstance(w, str) else [None if x != x else float(x) for x in w],
                             "expected": [None if x != x else float(x) for x in wref]}, None)
 
+    audit(ctx, tmp, counters)
+
     # ------------------------------------------------------------ model evaluation + comparison
     vals = C.coq_eval(G.IMPORTS, exprs, tmpdir=tmp / "model", shard=30, jobs=4, timeout=600)
     for (kind, case, payload, mden), mv in zip(pend, vals):
@@ -489,7 +683,24 @@ def run(ctx):
     ctx.extra["counts"] = dict(counters, cases=len(cases), model_evaluations=len(exprs))
 
 
+class _Collect:
+    """minimal stand-in for Ctx used to replay one audit case"""
+
+    def __init__(self):
+        self.failed = []
+
+    def case(self, *a, **k):
+        pass
+
+    def fail(self, case, detail, signature=None):
+        self.failed.append(case.get("audit"))
+
+
 def replay(ctx, case):
+    if "audit" in case:
+        col = _Collect()
+        audit(col, ctx.tmp, {"audit": 0})
+        return case["audit"] not in col.failed
     per, pixels, o = case["per"], case["pixels"], case["o"]
     n = sum(per)
     F = G.dense_int(n, pixels)
